@@ -213,7 +213,9 @@ def run_decay(t, case, seed):
     t.outcomes["shapes:" + ("complex" if case["cm"] else "real")] += 1
     t.outcomes["refs:" + ("all" if sorted(refs) == list(range(l)) else "proper-subset")] += 1
     t.outcomes[f"method:{meth}"] += 1
-    Y = S.decay(a, N)                      # N x l
+    level = LEVELS[case["idx"] % len(LEVELS)]
+    t.outcomes[f"response-level:{level:g}"] += 1
+    Y = level * S.decay(a, N)              # N x l; the level of the initial condition is part of the quantifier
     dt = 1.0 / case["fs"]
     _collider(case, seed, Y.shape, br, om, refs, meth)
 
@@ -279,6 +281,10 @@ def run_decay(t, case, seed):
             judge(t, case, seed, "mpe", *res)
 
 
+# "every initial condition exciting all modes": the overall level of the response is free; the identification is scale
+# invariant, so three levels rotate over the lattice index (unit, very small, large)
+LEVELS = (1.0, 3e-8, 2e5)
+
 _NOISE = {}
 
 
@@ -324,7 +330,8 @@ def run_exact(t, case, seed):
     t.states += 1
     if m >= 2 or r != l:
         t.nontrivial.add(("e", case["idx"]))
-    H = S.hankel_exact(None, G, br)
+    level = LEVELS[case["idx"] % len(LEVELS)]
+    H = level * S.hankel_exact(None, G, br)
     rank = int(np.linalg.matrix_rank(H, tol=1e-11 * np.linalg.norm(H, 2)))
     if rank != o:                      # the model itself must deliver what the clause quantifies over
         raise AssertionError(f"exact Hankel product has numerical rank {rank}, expected {o}: {case}")
@@ -377,6 +384,7 @@ def explore(ctx):
         "modes_m": [1, 6] if ctx.thorough else [1, 4],
         "channels_l": list(L_ALL),
         "shapes": ["real", "complex"],
+        "response_level": list(LEVELS),
         "reference_subsets": {str(l): [list(c) for c in ref_subsets(l)] for l in L_ALL},
         "block_rows": "max(ceil(2m/l), ceil(2m/r)) + 1 + offset, offset in " + str(list(BRO_ALL)),
         "placement": list(T.PLACEMENTS), "damping": list(T.DAMPINGS), "fs": list(FS_ALL), "record_length": list(N_ALL),
@@ -393,7 +401,7 @@ def explore(ctx):
     ctx.pmap(_work, _items(decay, 40))
     ctx.pmap(_work, _items(exact, 150))
     ctx.tally.sample({"note": "lattice sizes", "free_decay_cases": len(decay), "exact_H_cases": len(exact)})
-    ctx.require("func:agree", "legacy:agree", "setup:agree", "mpe:agree", "exact-fast:agree", "exact-legacy:agree",
+    ctx.require("response-level:1", "response-level:3e-08", "response-level:200000", "func:agree", "legacy:agree", "setup:agree", "mpe:agree", "exact-fast:agree", "exact-legacy:agree",
                 "shapes:complex", "shapes:real", "refs:proper-subset", "refs:all", "method:cov_mm", "method:dat")
 
 
